@@ -568,3 +568,35 @@ def impl_latex(case):
                          "root_res": len(prog.resources), "all_res": nres(prog)}
         out[tag] = res
     return out
+
+
+# ------------------------------------------------------------------ parser / serializer (C11, C12)
+
+def impl_parse(case):
+    from bartiq import sympy_backend as B
+
+    e = B.as_expression(case["text"])
+    ex, inex = from_sympy(e)
+    return {"expr": ex, "inexact": inex}
+
+
+def impl_roundtrip(case):
+    """C12: build a sympy expression, write it out with bartiq's serializer, read the text back with bartiq's parser."""
+    from bartiq import sympy_backend as B
+
+    try:
+        e = B.as_expression(to_str(case["expr"])) if "expr" in case else B.as_expression(case["text"])
+        if case.get("assign"):
+            # an expression as evaluation produces it: substitute some symbols (rationals / floats) first
+            e = B.substitute(e, {k: B.as_expression(v) for k, v in case["assign"].items()})
+    except (ZeroDivisionError, TypeError, ValueError) as ex:
+        # the expression could not be built (a division by zero on the way): nothing to serialise
+        return {"skip": type(ex).__name__}
+    text = B.serialize(e)
+    e2 = B.as_expression(text)
+    a, inex1 = from_sympy(e)
+    b, inex2 = from_sympy(e2)
+    import sympy
+    fs1 = sorted(str(s) for s in e.free_symbols) if isinstance(e, sympy.Basic) else []
+    fs2 = sorted(str(s) for s in e2.free_symbols) if isinstance(e2, sympy.Basic) else []
+    return {"text": text, "a": a, "b": b, "inexact": inex1 or inex2, "fs_equal": fs1 == fs2, "structurally_equal": bool(e == e2)}
